@@ -302,7 +302,8 @@ func getEncodingType(encMessage []byte) (string, []byte, error) {
 		doubleQuote := []byte("\"")
 
 		// packed message is base64 encoded and double-quoted.
-		if bytes.HasPrefix(encMessage, doubleQuote) && bytes.HasSuffix(encMessage, doubleQuote) {
+		if len(encMessage) >= 2*len(doubleQuote) &&
+			bytes.HasPrefix(encMessage, doubleQuote) && bytes.HasSuffix(encMessage, doubleQuote) {
 			msg := string(encMessage[1 : len(encMessage)-1])
 			var encodedEnvelope []byte
 
